@@ -343,6 +343,39 @@ CLAIMED["C08"] = {
     "proposals are not under contract.",
 }
 
+CLAIMED["C03"] = {
+    "text": "Partial claim, proved for all store sizes, level counts and "
+    "weights over the reals (log-values through their exponential image): "
+    "(a) ImportanceNestedSampler.add_new_proposal_weight sets every "
+    "proposal weight to count/total with the new level's count, keeps the "
+    "count and weight dictionaries keyed -1,0,1,... in insertion order "
+    "(the order np.fromiter(d.values()) relies on: obligation "
+    "dense_key_order), makes the weights sum to one (Lean lemmas "
+    "sum_split / sum_last / sum_div) so that update_proposal_weights does "
+    "not raise, and raises exactly when samples were already drawn from "
+    "that level; (b) ImportanceFlowProposal.update_log_q appends exactly "
+    "one column = current level's density at the sample + log-Jacobian, "
+    "leaves the other columns untouched and raises iff the column exists; "
+    "(c) compute_meta_proposal_from_log_q returns log sum_j w_j exp(q_ij) "
+    "with column j weighted by the weight of key j-1; (d) "
+    "add_and_update_points (both stores) re-establishes the invariant of "
+    "C03 for EVERY stored sample: row has one column per proposal, column "
+    "j equals proposal j re-evaluated at the sample's point (abstract "
+    "densities LPX, reparameterisation Rf/RJ), logQ is the log of the "
+    "weighted mixture, logW = logU - logQ -- carried through "
+    "OrderedSamples.add_samples by the position maps proved in C04 "
+    "(strengthened with a surjectivity clause).",
+    "note": "ASSUMED (trusted contracts, listed in the evidence): the rows "
+    "returned by draw_n_samples / ImportanceFlowProposal.draw satisfy the "
+    "row invariant for the current weights (the rejection loop of draw and "
+    "compute_log_Q are not under contract), rescale = one abstract map "
+    "with its log-Jacobian, get_proposal_log_prob(k) = LPX(k, .). Not "
+    "decided: that samples lie in the unit hypercube and that logL equals "
+    "the model's value (C10 proves the batch evaluation), finalise / "
+    "adjust_final_samples / resume, update_sample_counts (bincount), "
+    "floating point.",
+}
+
 NA = {
     "C06": "statistical calibration over seeds: no pre/post-condition on a "
     "function expresses a distributional claim and no deductive back end "
